@@ -13,7 +13,7 @@ Inductive cobs :=
 Inductive obs :=
 | ONone                                            (* no response reached the client (handler panicked) *)
 | OResp (status : nat) (goa : option string)       (* status, goa-error header *)
-        (body : fields) (hdrs : fields)            (* flattened JSON body, designed / goa-attribute headers *)
+        (body : option fields) (hdrs : fields)     (* flattened body (None: not flattened, not compared), designed / goa-attribute headers *)
         (wh : nat) (client : cobs).                (* WriteHeader calls, client result *)
 
 Definition mkobs := OResp.
@@ -61,7 +61,7 @@ Definition check_case (te : tenv) (tbl : list edecl) (e : goerr) (o : obs) : boo
     let w := run_writer go_hdr_wire evs in
     Nat.eqb (ws_status w) st &&
     opt_eqb (lookup goa_error_header (ws_sent w)) goa &&
-    body_ok (ws_body w) body &&
+    match body with Some b => body_ok (ws_body w) b | None => true end &&
     fields_eqb (drop_key goa_error_header (ws_sent w)) hdrs &&
     Nat.eqb (ws_count w) wh &&
     match client with
